@@ -304,7 +304,8 @@ prop("C08", [
      "args": {"quick": ["--d1=5", "--d2=4", "--timeout-ms=120000", "--deadline-s=170"],
               "thorough": ["--d1=7", "--d2=6", "--faults=0", "--timeout-ms=600000", "--deadline-s=2400"]}},
     {"name": "c08_faults", "sources": ["c08_lifecycle.cc"], "c_sources": ["common/netgate.c"], "flavour": "asan",
-     "args": {"thorough": ["--d1=7", "--d2=0", "--faults=1", "--tick=1000", "--timeout-ms=600000", "--deadline-s=1500"]}},
+     "args": {"quick": ["--d1=5", "--d2=0", "--faults=1", "--tick=1000", "--timeout-ms=120000", "--deadline-s=170"],
+              "thorough": ["--d1=7", "--d2=0", "--faults=1", "--tick=1000", "--timeout-ms=600000", "--deadline-s=1500"]}},
     {"name": "c08_files", "sources": ["c08_lifecycle.cc"], "c_sources": ["common/netgate.c"], "flavour": "asan",
      "args": {"quick": ["--files=1", "--d1=5", "--d2=0", "--faults=1", "--tick=1000", "--timeout-ms=120000", "--deadline-s=170"],
               "thorough": ["--files=1", "--d1=6", "--d2=4", "--faults=1", "--tick=1000", "--timeout-ms=600000", "--deadline-s=1500"]}},
@@ -318,12 +319,14 @@ prop("C08", [
          "histories up to depth d1 on one connection and d2 on two connections (second connection only after the "
          "first: symmetry), each followed by 'all clients close, 6 ticks, run loops dry'; executed on a real "
          "Http::Endpoint (acceptor + 1 worker gated at epoll_wait, virtual time, header/body time-outs 1 s / 2 s) "
-         "with real loopback TCP clients; oracle per history as in the harness header; states = distinct (history, "
+         "with real loopback TCP clients; after every history a fresh connection must be served its own response and a "
+         "further fresh connection that stays silent must be answered 408, closed and told to the handler by the idle "
+         "time-out; oracle per history as in the harness header; states = distinct (history, "
          "accepted, descriptor delta); transitions = event-loop steps granted",
     assumptions=COMMON_ASSUME + ["real loopback TCP: after each client action the harness waits (bounded) for the "
                                  "kernel to make a loop ready; a late kernel effect would show as harness nondeterminism, "
                                  "not as a verdict"],
-    bounds={"quick": "depth 5 (1 connection), 4 (2 connections); file responses with write faults: depth 5 on one connection",
+    bounds={"quick": "depth 5 (1 connection), 4 (2 connections); with write faults, and with file responses and write faults: depth 5 on one connection",
             "thorough": "depth 7 / 6, depth 7 with write faults, file responses with write faults depth 6 / 4"})
 
 prop("C14", [
